@@ -59,7 +59,12 @@ def rand_para(rng, i):
         table = ORDERED["1"] if numid == "1" else ORDERED["2"]
         ppr.append(X("w:numPr", {}, [X("w:ilvl", {"w:val": str(lvl)}), X("w:numId", {"w:val": numid})]))
         exp = ("li", lvl + 1, table[lvl])
-    elif k < 0.9:
+    elif k < 0.88:
+        # the paragraph's own, complete numPr names a list that does not exist: it is NOT numbered — also when its style would number it
+        ppr.append(X("w:pStyle", {"w:val": "ListParagraph"}))
+        ppr.append(X("w:numPr", {}, [X("w:ilvl", {"w:val": rng.choice(["0", "1"])}), X("w:numId", {"w:val": rng.choice(["0", "99"])})]))
+        exp = ("p",)
+    elif k < 0.92:
         # level 6+ or unresolvable numbering: an ordinary paragraph
         ppr.append(X("w:numPr", {}, [X("w:ilvl", {"w:val": rng.choice(["5", "7"])}), X("w:numId", {"w:val": rng.choice(["2", "4", "5", "99"])})]))
         if ppr[-1].children[1].attributes["w:val"] == "2" and ppr[-1].children[0].attributes["w:val"] == "5":
